@@ -83,7 +83,9 @@ class MieLens(ScatteringTheory):
         illum_polarization : 2-element tuple
             The (x, y) field polarizations.
         """
-        index_ratio = scatterer.n / medium_index
+        # mielensfunctions follows van de Hulst's exp(+iwt) convention, in
+        # which an absorbing sphere has index n - ik; HoloPy's is n + ik
+        index_ratio = np.conj(scatterer.n / medium_index)
         size_parameter = medium_wavevec * scatterer.r
 
         rho, phi, z = positions
